@@ -87,6 +87,9 @@ def _unit(model, sizes, ranks, generic):
             kw = {} if lb is None else {"limit_sigma": lb}
             ra = call(mA.rate, mk_teams(ctx, S, sizes), ranks=list(ranks) if ranks else None, tau=t, **kw)
             rb = call(mB.rate, mk_teams(ctx, S, sizes), ranks=list(ranks) if ranks else None)
+            if generic:
+                from .. import teams as _T
+                _T.guard(ra, rb)
             rp = lambda md: base_rp(md, "c15_tau", t=enc_model(md, "t"), a=la, b=lb)
             tag = f"[model_limit={la},call_limit={lb}]"
             ctx.oblige(f"C15/{model}/rate/tau-equiv{tag}@{shape}", _compare(ra, rb), meta={"replay": rp, "fn": fn, "shape": shape})
@@ -107,6 +110,9 @@ def _unit(model, sizes, ranks, generic):
         mB, _ = game.mk_model(ctx, S)
         ra = call(mA.rate, mk_teams(ctx, S, sizes), ranks=list(ranks) if ranks else None, tau=None)
         rb = call(mB.rate, mk_teams(ctx, S, sizes), ranks=list(ranks) if ranks else None, tau=pa["tau"])
+        if generic:
+            from .. import teams as _T
+            _T.guard(ra, rb)
         rp = lambda md: base_rp(md, "c15_tau", t=enc_model(md, "m_tau", KFLOAT))
         ctx.oblige(f"C15/{model}/rate/tau-omitted@{shape}", _compare(ra, rb), meta={"replay": rp, "fn": fn, "shape": shape})
     explore(ctx, run_tau_none)
@@ -123,6 +129,9 @@ def _unit(model, sizes, ranks, generic):
                 mB, _ = game.mk_model(ctx, S, limit_sigma=eff)
                 ra = call(mA.rate, mk_teams(ctx, S, sizes), ranks=list(ranks) if ranks else None, limit_sigma=b)
                 rb = call(mB.rate, mk_teams(ctx, S, sizes), ranks=list(ranks) if ranks else None)
+                if generic:
+                    from .. import teams as _T
+                    _T.guard(ra, rb)
                 nm = "limit-omitted" if b is None else "limit-equiv"
                 rp = lambda md: base_rp(md, "c15_limit", a=a, b=b)
                 ctx.oblige(f"C15/{model}/rate/{nm}[model={a},call={b}]@{shape}", _compare(ra, rb),
